@@ -7,7 +7,7 @@ BASE_NOTE = ("Trusted: Lean 4.33 kernel; axioms limited to propext/Classical.cho
              "hand-written and tied to /repo by the extracted source facts (re-proved each run) and by the correspondence run "
              "(model driver vs real code on the same generated inputs). ")
 CLAIMED = {
- "C06": dict(tech="Lean 4 theorems (encode/decode round trip, exact consumption, size limits, accepted => tiled) over a model of protocol.py; ReceivingMessage.add_payload and the three size/compression conditions are TRANSLATED from the source on every run (py2ir.py -> PyIR deep embedding) and proved equal to the model for all inputs (addPayload_translated, C06_gen_conditions); extracted/probed header facts; byte-level correspondence incl. a decoder watchdog",
+ "C06": dict(tech="Lean 4 theorems (encode/decode round trip, exact consumption, size limits, accepted => tiled) over a model of protocol.py; SendingMessage.__init__, ReceivingMessage.validate / __init__ / add_payload and the three size/compression conditions are TRANSLATED from the source on every run (py2ir.py -> PyIR deep embedding) and proved equal to the model for all inputs (sendInit_translated, validate_translated, init_translated, addPayload_translated, C06_source_recvStub, C06_source_roundtrip, C06_gen_conditions); extracted/probed header facts; byte-level correspondence incl. a decoder watchdog",
              text="Proof: for every message, payload, annotation list, compression setting, MAX_MESSAGE_SIZE and trailing stream the model decoder returns exactly what the model encoder was given and consumes exactly its bytes; tie to the code by differential runs of SendingMessage/ReceivingMessage/recv_stub against the model driver on generated and mutated byte strings.",
              note="zlib is a parameter with the round-trip law (validated differentially); connection.recv is 'exactly n bytes or raise' (that contract is C17); the PyIR interpreter + py2ir transcription are the assumed semantics of the Python fragment add_payload is written in (run next to the model by the driver on every decode line)."),
  "C08": dict(tech="Lean 4: invariant by induction over arbitrary item sequences / event interleavings for a model of _handshake, handleRequest and both transports' connection life cycle; extracted accept-lists and guard shapes; history correspondence on the real transports over in-memory sockets",
